@@ -1009,6 +1009,17 @@ class Explorer:
                     except Inconclusive as u:
                         self.inconclusive = str(u)
                         break
+                    except Exception as u:
+                        # an ordinary exception that came out of the harness (typically: the changed code under test handed an abstract value to
+                        # native code, or a harness assumption about the shape of a result no longer holds): not a verdict - the path is
+                        # unsupported and its inputs go to the concrete replay
+                        import traceback
+                        tb = traceback.extract_tb(u.__traceback__)
+                        where = '%s:%d' % (os.path.basename(tb[-1].filename), tb[-1].lineno) if tb else '?'
+                        msg = '%s at %s: %s' % (type(u).__name__, where, str(u)[:100])
+                        self.results.append(('unsupported', msg))
+                        self.inconclusive = 'unsupported: %s' % msg
+                        self._concolic_fallback(msg)
                 finally:
                     CUR = None
                     self.solver.pop()
